@@ -1,4 +1,5 @@
 import Abverif.Model.WampInst
+import Abverif.Model.SchemaSpec
 import Abverif.Model.WValCodec
 import Abverif.Model.Batch
 /-
@@ -7,9 +8,12 @@ Line protocol for the WAMP message model (C03, C08).  Values travel as ONE token
   wamp.parse <wval>            → ok <Class> <marshal(m) as wval> <fields of m as dict wval>  |  err <ExceptionClass> <site>
   wamp.marshal <Class> <dict>  → <wval>            (Schema.marshal of the message with these fields)
   wamp.rt <Class> <dict>       → like wamp.parse applied to the marshalled message
+  wamp.spec <wval>             → clean <Class> | viol <Class> field:reason,… | reject <ExceptionClass>   (C08 Spec verdict)
+  wamp.valid <Class> <dict>    → two bits: Schema.strict, Schema.residual of the message with these fields
   wamp.lengths <Class>         → admissible len(wmsg), comma separated
   wamp.fields <Class>          → field names, comma separated
   wamp.code <Class>            → type code
+  wamp.typemap                 → the regenerated MESSAGE_TYPE_MAP as code:Class,…
   batch.json <hex,hex,…>       → hex            unbatch.json <hex> → ok <hex,hex,…> | err <kind>
   batch.bin  <hex,hex,…>       → hex            unbatch.bin  <hex> → ok <hex,hex,…> | err <kind>
   (`-` = empty octet string, `.` = empty list)
@@ -40,6 +44,22 @@ def handle : List String → Option String
       match unserializeOne oracles v with
       | .ok (σ, m) => pure (outParse σ (.ok m))
       | .error e => pure s!"err {e.cls.name} {str e.site}"
+  | ["wamp.spec", t] => do
+      -- the Spec's verdict on an accepted input: `reject` if the model does not accept it, else the list of
+      -- fields that C08 says must not have been accepted (`clean` if none)
+      let v ← Codec.decode t
+      match unserializeOne oracles v with
+      | .ok (σ, m) =>
+          let vs := σ.specViolations Uri.Spec.ok m
+          if vs.isEmpty then pure s!"clean {str σ.name}"
+          else pure s!"viol {str σ.name} {",".intercalate (vs.map (fun fr => str fr.1 ++ ":" ++ str fr.2))}"
+      | .error e => pure s!"reject {e.cls.name}"
+  | ["wamp.valid", c, t] => do
+      let σ ← findSchema c
+      let v ← Codec.decode t
+      match v with
+      | .dict m => pure s!"{boolStr (σ.strict oracles m)}{boolStr (σ.residual oracles m)}"
+      | _ => none
   | ["wamp.marshal", c, t] => do
       let σ ← findSchema c
       let v ← Codec.decode t
@@ -58,6 +78,8 @@ def handle : List String → Option String
   | ["wamp.fields", c] => do
       let σ ← findSchema c
       pure (",".intercalate (σ.fieldNames.map str))
+  | ["wamp.typemap"] =>
+      pure (",".intercalate (Generated.WampCodes.typeMap.map (fun e => s!"{e.1}:{str e.2}")))
   | ["wamp.code", c] => do
       let σ ← findSchema c
       pure (toString σ.code)
